@@ -3,6 +3,7 @@ package mpath
 import (
 	"encoding/json"
 	"fmt"
+	"math"
 	"reflect"
 	"regexp"
 	"sort"
@@ -457,6 +458,9 @@ func func_decimalSlice(rtParams FunctionParameterTypes, val any, decimalSliceFun
 				}
 				goto notArrayOfNumbers
 			case float64:
+				if math.IsNaN(t) || math.IsInf(t, 0) {
+					goto notArrayOfNumbers
+				}
 				newSlc = append(newSlc, decimal.NewFromFloat(t))
 			default:
 				goto notArrayOfNumbers
